@@ -1,6 +1,7 @@
 /-
-The column check `cfgOk` holds for every list of boundary points and every `max_word_length` that
-is a positive multiple of the bin size 5 (C20).
+The column check `cfgOk` holds for every list of boundary points, every bin size `s > 0` (the same for
+`_init_doc_stats` and `get_word_cat_stats`) and every `max_word_length` that is a positive multiple of `s`
+(C20).  Nothing here looks at the regenerated values.
 -/
 import PagexmlModel.Lemmas.C20Tables
 
@@ -9,54 +10,61 @@ set_option linter.unusedSimpArgs false
 
 namespace Pagexml.C20
 
-/-! ### the labels of the word-length bins -/
+/-! ### the labels of the word-length bins (any bin size `s`) -/
 
-def binLabels (k : Nat) : List Nat := (List.range k).map (fun i => 5 * (i + 1))
+def binLabels (s k : Nat) : List Nat := (List.range k).map (fun i => s * (i + 1))
 
-theorem binLabels_succ (k : Nat) : binLabels (k + 1) = binLabels k ++ [5 * (k + 1)] := by
+theorem binLabels_succ (s k : Nat) : binLabels s (k + 1) = binLabels s k ++ [s * (k + 1)] := by
   simp [binLabels, List.range_succ]
 
-/-- number of bins after the lengths `1 … n` -/
-def binsAfter (n : Nat) : Nat := if n = 0 then 1 else (n + 4) / 5
+/-- invariant of the bin loop after the lengths `1 … n`: the current bin is `s·(k+1)`, the earlier ones are
+    `s, 2s, …, s·k`; the current bin covers `n`, and it was opened because `n` exceeded the one before -/
+def BinInv (s n : Nat) (st : List (Nat × Nat)) : Prop :=
+  ∃ k c r, st = (s * (k + 1), c) :: r ∧ r.map (·.1) = (binLabels s k).reverse ∧ n ≤ s * (k + 1) ∧
+    (k = 0 ∨ s * k < n)
 
-/-- invariant of the bin loop after the lengths `1 … n`: the current bin is `5·(k+1)` with
-    `k + 1 = binsAfter n`, the earlier ones are `5, 10, …, 5·k` -/
-def BinInv (n : Nat) (st : List (Nat × Nat)) : Prop :=
-  ∃ k c r, st = (5 * (k + 1), c) :: r ∧ r.map (·.1) = (binLabels k).reverse ∧ k + 1 = binsAfter n ∧ n ≤ 5 * (k + 1)
-
-theorem binInv_step (f : Nat → Nat) (n : Nat) (st : List (Nat × Nat)) (h : BinInv n st) :
-    BinInv (n + 1) (binStep 5 f st (1 + n)) := by
-  obtain ⟨k, c, r, rfl, hr, hk, hn⟩ := h
-  simp only [binStep]
-  by_cases hgt : 1 + n > 5 * (k + 1)
+theorem binInv_step (s : Nat) (hs : 0 < s) (f : Nat → Nat) (n : Nat) (st : List (Nat × Nat)) (h : BinInv s n st) :
+    BinInv s (n + 1) (binStep s f st (1 + n)) := by
+  obtain ⟨k, c, r, rfl, hr, hn, hk⟩ := h
+  have hs' : ¬ s = 0 := by omega
+  have e1 : s * (k + 1) = s * k + s := Nat.mul_succ s k
+  have e2 : s * (k + 1 + 1) = s * k + s + s := by rw [Nat.mul_succ, e1]
+  simp only [binStep, hs', if_false]
+  by_cases hgt : 1 + n > s * (k + 1)
   · simp only [hgt, if_true]
-    refine ⟨k + 1, f (1 + n), (5 * (k + 1), c) :: r, by simp; omega, ?_, ?_, ?_⟩
+    refine ⟨k + 1, f (1 + n), (s * (k + 1), c) :: r, ?_, ?_, ?_, ?_⟩
+    · rw [e2, e1]
     · simp [binLabels_succ, hr]
-    · simp only [binsAfter] at hk ⊢
-      split at hk <;> simp <;> omega
     · omega
+    · right; omega
   · simp only [hgt, if_false]
     refine ⟨k, c + f (1 + n), r, rfl, hr, ?_, ?_⟩
-    · simp only [binsAfter] at hk ⊢
-      split at hk <;> simp <;> omega
     · omega
+    · rcases hk with hk | hk
+      · exact Or.inl hk
+      · right; omega
 
-theorem binInv_fold (f : Nat → Nat) (n : Nat) : BinInv n ((List.range' 1 n).foldl (binStep 5 f) [(5, 0)]) := by
+theorem binInv_fold (s : Nat) (hs : 0 < s) (f : Nat → Nat) (n : Nat) :
+    BinInv s n ((List.range' 1 n).foldl (binStep s f) [(s, 0)]) := by
   induction n with
-  | zero => exact ⟨0, 0, [], rfl, rfl, by simp [binsAfter], by omega⟩
+  | zero => exact ⟨0, 0, [], by simp, rfl, by omega, Or.inl rfl⟩
   | succ m ih =>
     rw [List.range'_concat, List.foldl_append]
     simp only [List.foldl_cons, List.foldl_nil, Nat.one_mul]
-    exact binInv_step f m _ ih
+    exact binInv_step s hs f m _ ih
 
-/-- for `max_word_length = 5·(k+1)` the bins are `5, 10, …, 5·(k+1)` — exactly the
-    `num_words_length_*` columns `_init_doc_stats` creates -/
-theorem lengthBins_labels_eq (f : Nat → Nat) (k : Nat) :
-    (lengthBins 5 (5 * (k + 1)) f).map (·.1) = binLabels (k + 1) := by
-  obtain ⟨j, c, r, hst, hr, hj, _⟩ := binInv_fold f (5 * (k + 1))
+/-- for every bin size `s > 0` and `max_word_length = s·(k+1)` the bins `get_word_cat_stats` produces are
+    `s, 2s, …, s·(k+1)` — exactly the `num_words_length_*` columns `_init_doc_stats` creates for the same
+    bin size -/
+theorem lengthBins_labels_eq (s : Nat) (hs : 0 < s) (f : Nat → Nat) (k : Nat) :
+    (lengthBins s (s * (k + 1)) f).map (·.1) = binLabels s (k + 1) := by
+  obtain ⟨j, c, r, hst, hr, hle, hlt⟩ := binInv_fold s hs f (s * (k + 1))
   have hjk : j = k := by
-    simp only [binsAfter] at hj
-    split at hj <;> omega
+    have h1 : k + 1 ≤ j + 1 := Nat.le_of_mul_le_mul_left hle hs
+    rcases hlt with h0 | hlt
+    · omega
+    · have h2 : j < k + 1 := Nat.lt_of_mul_lt_mul_left hlt
+      omega
   subst hjk
   simp only [lengthBins, hst, List.reverse_cons, List.map_append, List.map_reverse, hr, List.reverse_reverse,
     List.map_cons, List.map_nil, binLabels_succ]
@@ -67,14 +75,10 @@ theorem nodup_map_of_inj {β γ : Type} (f : β → γ) (hf : ∀ a b, f a = f b
     (l.map f).Nodup :=
   List.Pairwise.map f (fun a b hab e => hab (hf a b e)) h
 
-theorem nodup_binLabels (k : Nat) : (binLabels k).Nodup :=
-  nodup_map_of_inj _ (fun a b e => by omega) _ List.nodup_range
+theorem nodup_binLabels (s : Nat) (hs : 0 < s) (k : Nat) : (binLabels s k).Nodup :=
+  nodup_map_of_inj _ (fun a b e => by have := Nat.eq_of_mul_eq_mul_left hs e; omega) _ List.nodup_range
 
 /-! ### the check -/
-
-def fixedCols : List Col :=
-  [Col.docId, .docNum, .docWidth, .docHeight] ++ (List.range numElems).map Col.elem ++
-  [.numWords, .numAlpha, .numNumber, .numTitle, .numNonTitle, .numStop, .numPunct, .numOversized]
 
 def wplLabels : List String := Generated.C20.wplCats.map (fun c => c.1)
 
@@ -86,9 +90,47 @@ def colKind : Col → Nat
   | .lineWidth _ => 4
   | _ => 0
 
-theorem kind_fixed : ∀ c ∈ fixedCols, colKind c = 0 := by decide
+theorem kind_fixed : ∀ c ∈ fixedCols, colKind c = 0 := by
+  intro c hc
+  simp only [fixedCols, List.mem_append, List.mem_map, List.mem_cons, List.not_mem_nil, or_false] at hc
+  rcases hc with (hc | ⟨_, _, rfl⟩) | hc
+  · rcases hc with rfl | rfl | rfl | rfl <;> rfl
+  · rfl
+  · rcases hc with rfl | rfl | rfl | rfl | rfl | rfl | rfl | rfl <;> rfl
 
-theorem nodup_fixed : fixedCols.Nodup := by decide
+/-- `elem` column or not -/
+def isElem : Col → Bool
+  | .elem _ => true
+  | _ => false
+
+/-- the fixed columns are distinct, however many entries DEFAULT_ELEMENTS has -/
+theorem nodup_fixed : fixedCols.Nodup := by
+  unfold fixedCols
+  have hA : ∀ c ∈ [Col.docId, .docNum, .docWidth, .docHeight], isElem c = false := by decide
+  have hB : ∀ c ∈ [Col.numWords, .numAlpha, .numNumber, .numTitle, .numNonTitle, .numStop, .numPunct, .numOversized],
+      isElem c = false := by decide
+  have hAB : ∀ a ∈ [Col.docId, .docNum, .docWidth, .docHeight],
+      ∀ b ∈ [Col.numWords, .numAlpha, .numNumber, .numTitle, .numNonTitle, .numStop, .numPunct, .numOversized], a ≠ b := by
+    decide
+  have hM : ∀ c ∈ (List.range numElems).map Col.elem, isElem c = true := by
+    intro c hc
+    obtain ⟨_, _, rfl⟩ := List.mem_map.mp hc
+    rfl
+  have nM : ((List.range numElems).map Col.elem).Nodup :=
+    nodup_map_of_inj _ (fun a b e => by injection e) _ List.nodup_range
+  refine List.nodup_append.mpr ⟨List.nodup_append.mpr ⟨by decide, nM, ?_⟩, by decide, ?_⟩
+  · intro a ha b hb e
+    subst e
+    have h1 := hA a ha
+    have h2 := hM a hb
+    simp [h1] at h2
+  · intro a ha b hb e
+    subst e
+    rcases List.mem_append.mp ha with ha | ha
+    · exact hAB a ha a hb rfl
+    · have h1 := hM a ha
+      have h2 := hB a hb
+      simp [h1] at h2
 
 theorem nodup_append_of_kinds (xs ys : List Col) (hx : xs.Nodup) (hy : ys.Nodup) (k : Nat)
     (hxk : ∀ c ∈ xs, colKind c < k) (hyk : ∀ c ∈ ys, colKind c = k) : (xs ++ ys).Nodup := by
@@ -99,24 +141,24 @@ theorem nodup_append_of_kinds (xs ys : List Col) (hx : xs.Nodup) (hy : ys.Nodup)
   have := hyk a hb
   omega
 
-theorem cfgOk_of_multiple (bps : List Int) (useStop : Bool) (k : Nat) :
-    cfgOk { bps := bps, useStop := useStop, maxLen := 5 * (k + 1) } = true := by
+theorem cfgOk_of_multiple (bps : List Int) (useStop : Bool) (s : Nat) (hs : 0 < s) (k : Nat) :
+    cfgOk { bps := bps, useStop := useStop, maxLen := s * (k + 1), initSize := s, wordSize := s } = true := by
   obtain ⟨_, hnR, hmemR⟩ := lineWidthInit_spec bps
   -- the five groups of row columns
-  have eB : (lengthBins 5 (5 * (k + 1)) (fun _ => 0)).map (fun b => Col.wordLen b.1) = (binLabels (k + 1)).map Col.wordLen := by
-    have := congrArg (List.map Col.wordLen) (lengthBins_labels_eq (fun _ => 0) k)
+  have eB : (lengthBins s (s * (k + 1)) (fun _ => 0)).map (fun b => Col.wordLen b.1) = (binLabels s (k + 1)).map Col.wordLen := by
+    have := congrArg (List.map Col.wordLen) (lengthBins_labels_eq s hs (fun _ => 0) k)
     simpa only [List.map_map, Function.comp_def] using this
-  have eRow : rowKeysCfg { bps := bps, useStop := useStop, maxLen := 5 * (k + 1) } =
-      fixedCols ++ (binLabels (k + 1)).map Col.wordLen ++ wplLabels.map Col.wpl ++ wplLabels.map Col.awpl ++
+  have eRow : rowKeysCfg { bps := bps, useStop := useStop, maxLen := s * (k + 1), initSize := s, wordSize := s } =
+      fixedCols ++ (binLabels s (k + 1)).map Col.wordLen ++ wplLabels.map Col.wpl ++ wplLabels.map Col.awpl ++
       (ckeys (lineWidthInit bps)).map Col.lineWidth := by
     simp only [rowKeysCfg, eB, fixedCols, wplLabels]
-  have eInit : tkeys (initDocStats { bps := bps, useStop := useStop, maxLen := 5 * (k + 1) }) =
-      dedupKeep (fixedCols ++ wplLabels.map Col.wpl ++ wplLabels.map Col.awpl ++ (binLabels (k + 1)).map Col.wordLen ++
+  have eInit : tkeys (initDocStats { bps := bps, useStop := useStop, maxLen := s * (k + 1), initSize := s, wordSize := s }) =
+      dedupKeep (fixedCols ++ wplLabels.map Col.wpl ++ wplLabels.map Col.awpl ++ (binLabels s (k + 1)).map Col.wordLen ++
         (boundaryWidthRanges bps).map Col.lineWidth) := by
-    have hk : 5 * (k + 1) / 5 = k + 1 := by omega
+    have hk : s * (k + 1) / s = k + 1 := Nat.mul_div_cancel_left (k + 1) hs
     simp only [initDocStats, tkeys, List.map_map, Function.comp_def, List.map_id', hk, fixedCols, wplLabels, binLabels]
-  have hmem : ∀ c, c ∈ rowKeysCfg { bps := bps, useStop := useStop, maxLen := 5 * (k + 1) } ↔
-      c ∈ tkeys (initDocStats { bps := bps, useStop := useStop, maxLen := 5 * (k + 1) }) := by
+  have hmem : ∀ c, c ∈ rowKeysCfg { bps := bps, useStop := useStop, maxLen := s * (k + 1), initSize := s, wordSize := s } ↔
+      c ∈ tkeys (initDocStats { bps := bps, useStop := useStop, maxLen := s * (k + 1), initSize := s, wordSize := s }) := by
     intro c
     rw [eRow, eInit, mem_dedupKeep]
     simp only [List.mem_append, List.mem_map, hmemR]
@@ -133,14 +175,14 @@ theorem cfgOk_of_multiple (bps : List Int) (useStop : Bool) (k : Nat) :
       · exact Or.inl (Or.inr h)
       · exact Or.inl (Or.inl (Or.inl (Or.inr h)))
       · exact Or.inr h
-  have hnd : (rowKeysCfg { bps := bps, useStop := useStop, maxLen := 5 * (k + 1) }).Nodup := by
+  have hnd : (rowKeysCfg { bps := bps, useStop := useStop, maxLen := s * (k + 1), initSize := s, wordSize := s }).Nodup := by
     rw [eRow]
-    have n1 : (fixedCols ++ (binLabels (k + 1)).map Col.wordLen).Nodup :=
+    have n1 : (fixedCols ++ (binLabels s (k + 1)).map Col.wordLen).Nodup :=
       nodup_append_of_kinds _ _ nodup_fixed
-        (nodup_map_of_inj _ (fun a b e => by injection e) _ (nodup_binLabels _)) 1
+        (nodup_map_of_inj _ (fun a b e => by injection e) _ (nodup_binLabels s hs _)) 1
         (fun c hc => by rw [kind_fixed c hc]; omega)
         (fun c hc => by obtain ⟨_, _, rfl⟩ := List.mem_map.mp hc; rfl)
-    have k1 : ∀ c ∈ fixedCols ++ (binLabels (k + 1)).map Col.wordLen, colKind c < 2 := by
+    have k1 : ∀ c ∈ fixedCols ++ (binLabels s (k + 1)).map Col.wordLen, colKind c < 2 := by
       intro c hc
       rcases List.mem_append.mp hc with h | h
       · rw [kind_fixed c h]; omega
@@ -148,7 +190,7 @@ theorem cfgOk_of_multiple (bps : List Int) (useStop : Bool) (k : Nat) :
     have n2 := nodup_append_of_kinds _ (wplLabels.map Col.wpl) n1
       (nodup_map_of_inj _ (fun a b e => by injection e) _ wpl_labels_nodup) 2 k1
       (fun c hc => by obtain ⟨_, _, rfl⟩ := List.mem_map.mp hc; rfl)
-    have k2 : ∀ c ∈ fixedCols ++ (binLabels (k + 1)).map Col.wordLen ++ wplLabels.map Col.wpl, colKind c < 3 := by
+    have k2 : ∀ c ∈ fixedCols ++ (binLabels s (k + 1)).map Col.wordLen ++ wplLabels.map Col.wpl, colKind c < 3 := by
       intro c hc
       rcases List.mem_append.mp hc with h | h
       · have := k1 c h; omega
@@ -156,7 +198,7 @@ theorem cfgOk_of_multiple (bps : List Int) (useStop : Bool) (k : Nat) :
     have n3 := nodup_append_of_kinds _ (wplLabels.map Col.awpl) n2
       (nodup_map_of_inj _ (fun a b e => by injection e) _ wpl_labels_nodup) 3 k2
       (fun c hc => by obtain ⟨_, _, rfl⟩ := List.mem_map.mp hc; rfl)
-    have k3 : ∀ c ∈ fixedCols ++ (binLabels (k + 1)).map Col.wordLen ++ wplLabels.map Col.wpl ++ wplLabels.map Col.awpl,
+    have k3 : ∀ c ∈ fixedCols ++ (binLabels s (k + 1)).map Col.wordLen ++ wplLabels.map Col.wpl ++ wplLabels.map Col.awpl,
         colKind c < 4 := by
       intro c hc
       rcases List.mem_append.mp hc with h | h
@@ -166,6 +208,6 @@ theorem cfgOk_of_multiple (bps : List Int) (useStop : Bool) (k : Nat) :
       (nodup_map_of_inj _ (fun a b e => by injection e) _ hnR) 4 k3
       (fun c hc => by obtain ⟨_, _, rfl⟩ := List.mem_map.mp hc; rfl)
   simp only [cfgOk, Bool.and_eq_true, List.all_eq_true, decide_eq_true_eq]
-  exact ⟨⟨hnd, fun c hc => (hmem c).mp hc⟩, fun c hc => (hmem c).mpr hc⟩
+  exact ⟨⟨⟨hs, hnd⟩, fun c hc => (hmem c).mp hc⟩, fun c hc => (hmem c).mpr hc⟩
 
 end Pagexml.C20
